@@ -309,7 +309,7 @@ for _p in ('C07', 'C06', 'C01'):
 for _p in ('C11', 'C05', 'C07'):
     PROPS[_p]['tables'] = PROPS[_p]['tables'] + ['mark']
 PROPS['C18']['contracts'] = PROPS['C18']['contracts'] + [(D, 'ber.decoder::ConstructedPayloadDecoderBase.valueDecoder@open-types'), (D, 'ber.decoder::ConstructedPayloadDecoderBase.indefLenValueDecoder@open-types')]
-PROPS['C18']['level_text'] = ('Resolution by governing value is a discharged contract on the open-type region of both constructed '
+PROPS['C18']['level_text'] = ('Resolution by governing value is a contract on the open-type region of both constructed (one governing + one open-type member: bounded instance) '
                               'decoders: the caller\'s openTypes map is consulted first, the map declared with the type second, an unresolved '
                               'governing value leaves the captured octets in place; capturing reads exactly the element (read / wrapper / ANY '
                               'contracts). Wrapping on encode, tagging variants and SET OF containers are bounded stand-ins over 4 codecs x 3 '
@@ -348,12 +348,14 @@ CHOICE = [(UN, 'type.univ::Choice.setComponentByPosition'), (UN, 'type.univ::Cho
 PROPS['C19']['contracts'] = CHOICE
 PROPS['C19']['level_text'] = ('CHOICE holds at most one alternative: Choice.setComponentByPosition / clear / reset preserve the '
                               'single-alternative invariant and a refused assignment changes nothing (contracts on the real '
-                              'methods, proved over all selections). The rest of the object model of univ.py (dynamic attributes, '
-                              'sparse dict storage) is outside the modelled subset (A-OBJ) and is decided on bounded operation '
-                              'histories against list/dict models, DER of the model compared after every step (labelled bounded).')
+                              'methods over every selection state of a three-way CHOICE: a bounded instance, labelled so). The name-, tag- '
+                              'and slice-addressed operations, sort/reverse/count/index and the composition over operation histories '
+                              'are decided on bounded operation histories against list/dict models, DER of the model compared after '
+                              'every step (labelled bounded).')
 PROPS['C17']['contracts'] = [(UN, 'native.encoder::SetEncoder.encode')]
 PROPS['C17']['level_text'] = ('native SetEncoder/SequenceEncoder.encode: the python mapping holds exactly the present members, '
-                              'absent OPTIONAL members are left out (contract, proved); dispatch tables of the native codec are '
+                              'absent OPTIONAL members are left out (contract over records of three members with every OPTIONAL/set pattern: '
+                              'a bounded instance); dispatch tables of the native codec are '
                               'complete (complete evaluation); scalar conversions are string/float based and outside the '
                               'modelled subset, so the round trip and python-value + schema equality are bounded stand-ins.')
 PROPS['C18']['contracts'] = PROPS['C18']['contracts'] + [(UN, 'ber.decoder::AnyPayloadDecoder.valueDecoder[untagged,complete]')]
